@@ -110,53 +110,45 @@ func (q *Seq) Exec(op SOp) bool {
 	nowMs := int64(c.S.Elapsed() / 1e6)
 	switch op.Kind {
 	case "sub":
-		if !s.Send(&wamp.Subscribe{Request: req, Options: op.Opts, Topic: wamp.URI(op.URI)}) {
-			c.Violf("step %d (%s): router did not take the message", q.Step, what)
+		msg := &wamp.Subscribe{Request: req, Options: op.Opts, Topic: wamp.URI(op.URI)}
+		if !q.sendGated(s, idx, r, what, msg) {
 			return true
 		}
-		q.Settle()
-		q.Compare(r, what, m.Subscribe(idx, req, op.Opts, op.URI), nil)
+		q.Compare(r, what, m.Subscribe(idx, req, msg.Options, string(msg.Topic)), nil)
 	case "unsub":
 		sym, actual := q.pickSub(r, idx, op)
-		if !s.Send(&wamp.Unsubscribe{Request: req, Subscription: actual}) {
-			c.Violf("step %d (%s): router did not take the message", q.Step, what)
+		if !q.sendGated(s, idx, r, what, &wamp.Unsubscribe{Request: req, Subscription: actual}) {
 			return true
 		}
-		q.Settle()
 		q.Compare(r, what+fmt.Sprintf("->S#%d", sym), m.Unsubscribe(idx, req, sym), nil)
 	case "pub":
-		if !s.Send(&wamp.Publish{Request: req, Options: op.Opts, Topic: wamp.URI(op.URI), Arguments: op.Args, ArgumentsKw: op.Kw}) {
-			c.Violf("step %d (%s): router did not take the message", q.Step, what)
+		msg := &wamp.Publish{Request: req, Options: op.Opts, Topic: wamp.URI(op.URI), Arguments: op.Args, ArgumentsKw: op.Kw}
+		if !q.sendGated(s, idx, r, what, msg) {
 			return true
 		}
-		q.Settle()
-		exp, _ := m.Publish(idx, req, op.Opts, op.URI, modelArgs, modelKw, nowMs)
+		exp, _ := m.Publish(idx, req, msg.Options, string(msg.Topic), modelArgs, modelKw, nowMs)
 		if len(exp) > 1 {
 			c.Probe("publish_multi_recipient")
 		}
 		q.Compare(r, what, exp, nil)
 	case "reg":
-		if !s.Send(&wamp.Register{Request: req, Options: op.Opts, Procedure: wamp.URI(op.URI)}) {
-			c.Violf("step %d (%s): router did not take the message", q.Step, what)
+		msg := &wamp.Register{Request: req, Options: op.Opts, Procedure: wamp.URI(op.URI)}
+		if !q.sendGated(s, idx, r, what, msg) {
 			return true
 		}
-		q.Settle()
-		q.Compare(r, what, m.Register(idx, req, op.Opts, op.URI), nil)
+		q.Compare(r, what, m.Register(idx, req, msg.Options, string(msg.Procedure)), nil)
 	case "unreg":
 		sym, actual := q.pickReg(r, idx, op)
-		if !s.Send(&wamp.Unregister{Request: req, Registration: actual}) {
-			c.Violf("step %d (%s): router did not take the message", q.Step, what)
+		if !q.sendGated(s, idx, r, what, &wamp.Unregister{Request: req, Registration: actual}) {
 			return true
 		}
-		q.Settle()
 		q.Compare(r, what+fmt.Sprintf("->R#%d", sym), m.Unregister(idx, req, sym), nil)
 	case "call":
-		if !s.Send(&wamp.Call{Request: req, Options: op.Opts, Procedure: wamp.URI(op.URI), Arguments: op.Args, ArgumentsKw: op.Kw}) {
-			c.Violf("step %d (%s): router did not take the message", q.Step, what)
+		msg := &wamp.Call{Request: req, Options: op.Opts, Procedure: wamp.URI(op.URI), Arguments: op.Args, ArgumentsKw: op.Kw}
+		if !q.sendGated(s, idx, r, what, msg) {
 			return true
 		}
-		q.Settle()
-		exp, call := m.Call(idx, req, op.Opts, op.URI, modelArgs, modelKw)
+		exp, call := m.Call(idx, req, msg.Options, string(msg.Procedure), modelArgs, modelKw)
 		if call != nil {
 			c.Probe("call_routed")
 			if call.Callee < 0 {
@@ -176,11 +168,9 @@ func (q *Seq) Exec(op SOp) bool {
 		} else {
 			msg = &wamp.Error{Type: wamp.INVOCATION, Request: actual, Details: wamp.Dict{}, Error: wamp.URI(op.URI), Arguments: op.Args, ArgumentsKw: op.Kw}
 		}
-		if !s.Send(msg) {
-			c.Violf("step %d (%s): router did not take the message", q.Step, what)
+		if !q.sendGated(s, idx, r, what, msg) {
 			return true
 		}
-		q.Settle()
 		var exp []Exp
 		if op.Kind == "yield" {
 			exp = m.Yield(idx, sym, op.Prog, modelArgs, modelKw)
@@ -190,20 +180,23 @@ func (q *Seq) Exec(op SOp) bool {
 		q.Compare(r, what+fmt.Sprintf("->I#%d", sym), exp, nil)
 	case "cancel":
 		creq := q.pickCall(r, idx, op)
-		if !s.Send(&wamp.Cancel{Request: creq, Options: op.Opts}) {
-			c.Violf("step %d (%s): router did not take the message", q.Step, what)
+		if !q.sendGated(s, idx, r, what, &wamp.Cancel{Request: creq, Options: op.Opts}) {
 			return true
 		}
-		q.Settle()
 		q.Compare(r, what+fmt.Sprintf("->req %d", creq), m.Cancel(idx, creq, op.Opts), nil)
 	case "meta":
 		args, refs := q.resolveMetaArgs(r, op.Args)
-		if !s.Send(&wamp.Call{Request: req, Options: wamp.Dict{}, Procedure: wamp.URI(op.URI), Arguments: args, ArgumentsKw: op.Kw}) {
-			c.Violf("step %d (%s): router did not take the message", q.Step, what)
+		if !q.sendGated(s, idx, r, what, &wamp.Call{Request: req, Options: wamp.Dict{}, Procedure: wamp.URI(op.URI), Arguments: args, ArgumentsKw: op.Kw}) {
 			return true
 		}
-		q.Settle()
 		want, render, eff := m.Meta(idx, req, op.URI, args, op.Kw, refs, q.MetaKill)
+		if want == metaErr(req, "wamp.error.no_such_procedure") {
+			// not provided by the realm (kill procedures disabled): an ordinary
+			// call, which a client's pattern registration may match
+			exp, call := m.Call(idx, req, wamp.Dict{}, op.URI, args, op.Kw)
+			q.Compare(r, what+" [as ordinary call]", exp, call)
+			break
+		}
 		if render != nil {
 			q.metaRender[invKey{idx, req}] = render
 		}
@@ -283,6 +276,67 @@ func (q *Seq) Exec(op SOp) bool {
 		c.Violf("step %d (%s): the sender's own payload objects were modified by a recipient: now %s", q.Step, what, payload(sentArgs, sentKw))
 	}
 	return true
+}
+
+// sendGated sends msg, settles, and applies the authorizer gate of the model:
+// a message the Authorizer refuses (or fails on) must only produce the ERROR;
+// proceed=false then. An allowed message continues in the form the
+// Authorizer left it (the caller reads the fields back from msg).
+func (q *Seq) sendGated(s *Sess, idx int, r *SeqRealm, what string, msg wamp.Message) bool {
+	dec := authzAllow
+	if q.Authz != nil && (!s.Local || q.LocalAuthz) {
+		dec = q.Authz.Decide(q.MS[idx].Details["authid"], msg)
+	}
+	if !s.Send(msg) {
+		q.C.Violf("step %d (%s): router did not take the message", q.Step, what)
+		return false
+	}
+	q.Settle()
+	switch dec {
+	case authzDeny, authzFail:
+		q.C.Probe("authz_refused")
+		uri := "wamp.error.not_authorized"
+		if dec == authzFail {
+			uri = "wamp.error.authorization_failed"
+		}
+		var exp []Exp
+		req, hasReq := msgRequest(msg)
+		if pub, ok := msg.(*wamp.Publish); ok {
+			if ack, _ := pub.Options["acknowledge"].(bool); !ack {
+				hasReq = false
+			}
+		}
+		if hasReq {
+			exp = []Exp{{To: idx, Text: errText(msg.MessageType(), req, uri)}}
+		}
+		q.Compare(r, what+" [refused]", exp, nil)
+		return false
+	case authzRewrite:
+		q.C.Probe("authz_rewritten")
+	}
+	return true
+}
+
+func msgRequest(m wamp.Message) (wamp.ID, bool) {
+	switch x := m.(type) {
+	case *wamp.Publish:
+		return x.Request, true
+	case *wamp.Subscribe:
+		return x.Request, true
+	case *wamp.Unsubscribe:
+		return x.Request, true
+	case *wamp.Register:
+		return x.Request, true
+	case *wamp.Unregister:
+		return x.Request, true
+	case *wamp.Call:
+		return x.Request, true
+	case *wamp.Cancel:
+		return x.Request, true
+	case *wamp.Yield:
+		return x.Request, true
+	}
+	return 0, false
 }
 
 func (q *Seq) execJoin(op SOp) bool {
